@@ -14,6 +14,7 @@ T = {
  "C12d": ("C12", "ILLfct_check_dfeasible flags a positive reduced cost only for at-upper non-basic columns, no longer for FREE ones", "supplied non-singular basis with a free structural column non-basic (status FREE) and exact reduced cost > 0: verdict functions answer optimal / dual feasible"),
  "C16d": ("C16", "QScopy_prob_mpq_mpf takes the numeric parameters (time limit, objective limits) through a double", "finite objective limit that is not a double (1000/3), QScopy_prob_mpq_mpf, mpf_QSget_param_EGlpNum on the copy: only 53 bits agree"),
  "C20d": ("C20", "monitor_iter reports 'bound reached' with fprintf(stderr) instead of QSlog", "finite QS_PARAM_OBJULIM on a MIN problem (OBJLLIM on MAX) below the optimum, dual simplex: the dual objective crosses the limit (status OBJ_LIMIT)"),
+ "C13d": ("C13", "btranu3_process2 (sparse U^T solve of ILLfactor_btran) returns early on an exactly zero node value and skips the successors' delay bookkeeping", "basis dimension above 20 (sparse btran path), unit right-hand side (QSget_binv_row), exact cancellation at a U node that shares successors with another path (+1/-1 network-like columns)"),
  "C19d": ("C19", "bzip2 branch of EGioGets returns NULL at end of stream even when bytes of an unterminated last line were read", ".bz2 problem or basis file whose last line lacks the trailing newline"),
 }
 res = json.load(open(os.path.join(ROOT, "results.json")))
